@@ -184,8 +184,7 @@ func (cx *Ctx) buildFuncUnitOnce(fn *ssa.Function, fc *FuncContract, blacklist m
 	cov2 := u.oblige(out, "cover", fr.fnLabel()+"/cover:exit", "true", fn.Pos(), nil, "some return is reachable under the preconditions")
 	cov2.Cover = true
 	penv := fr.specEnv(out, fr.entry)
-	penv.fr = nil
-	penv.tpFrame = fr
+	penv.tpFrame = fr // (locals such as rangeindex<k> and named results stay visible in postconditions)
 	penv.result = res
 	bindResults(penv, fn.Signature, res)
 	for i, c0 := range fc.Ensures {
